@@ -298,6 +298,308 @@ def h_durable_real(ctx):
         shutil.rmtree(d, ignore_errors=True)
 
 
+# ---- the same stores on the symbolic SQL engine: ids, records and keys are solver variables ------------------------------------------
+class Rec(object):
+    """transparent stand-in for python-axolotl's record classes (SessionRecord, PreKeyRecord, ...): keeps the serialised bytes"""
+
+    def __init__(self, *a, **k):
+        self.serialized = k.get("serialized", a[0] if a else None)
+
+    def serialize(self):
+        return self.serialized
+
+    def isEmpty(self):
+        return self.serialized is None
+
+    def getPublicKey(self):
+        return self
+
+
+class Wrap(object):
+    """transparent stand-in for IdentityKeyPair / IdentityKey / DjbECPublicKey / DjbECPrivateKey: remembers what it was built from"""
+
+    def __init__(self, *a):
+        self.a = a
+
+
+class Assoc(object):
+    """ghost mapping whose keys may be symbolic: lookups decide key equality through the explorer"""
+
+    def __init__(self, items=()):
+        self.items = list(items)
+
+    def copy(self):
+        return Assoc(self.items)
+
+    def _find(self, k):
+        for i, (kk, _v) in enumerate(self.items):
+            if _keq(kk, k):
+                return i
+        return None
+
+    def get(self, k, d=None):
+        i = self._find(k)
+        return d if i is None else self.items[i][1]
+
+    def set(self, k, v):
+        i = self._find(k)
+        if i is None:
+            self.items.append((k, v))
+        else:
+            self.items[i] = (self.items[i][0], v)
+
+    def pop(self, k):
+        i = self._find(k)
+        if i is not None:
+            self.items.pop(i)
+
+    def keys(self):
+        return [k for k, _ in self.items]
+
+
+def _keq(a, b):
+    if isinstance(a, tuple):
+        return all(_keq(x, y) for x, y in zip(a, b))
+    return bool(a == b)
+
+
+ABSENT = "<absent>"
+
+
+def _veq(a, b):
+    """equality of two stored values (ropes / ints / None / ABSENT) as an obligation term"""
+    if a is ABSENT or b is ABSENT or a is None or b is None:
+        return a is b
+    if isinstance(a, tuple):
+        return core.conj(*[_veq(x, y) for x, y in zip(a, b)])
+    if isinstance(a, (int, core.SymInt)) and isinstance(b, (int, core.SymInt)):
+        return core.eq(a, b)
+    from sx.vals import valkey, SymSeq
+    if isinstance(a, SymSeq) and isinstance(b, SymSeq) and valkey(a) == valkey(b):
+        return True
+    try:
+        return H.rope_eq(a, b)
+    except core.Unsupported:
+        return False          # two different abstract inputs are different values (they are generic: the replay gives them different contents)
+
+
+def _any(*terms):
+    import z3
+    ts = []
+    for t in terms:
+        if t is True:
+            return True
+        if t is False:
+            continue
+        ts.append(t.t if isinstance(t, core.SymBool) else t)
+    return z3.Or(ts) if ts else False
+
+
+class SymEnv(object):
+    """the store modules bound to the symbolic SQL engine and to transparent record classes"""
+
+    def __init__(self, ctx, b):
+        from sx import symsql
+        import yowsup.axolotl.store.sqlite.liteaxolotlstore as m
+        import yowsup.axolotl.store.sqlite.litesenderkeystore as ms
+        import yowsup.axolotl.store.sqlite.liteidentitykeystore as mi
+        import yowsup.axolotl.store.sqlite.litesessionstore as mse
+        import yowsup.axolotl.store.sqlite.liteprekeystore as mp
+        import yowsup.axolotl.store.sqlite.litesignedprekeystore as msp
+        self.symsql, self.b, self.ctx = symsql, b, ctx
+        self.mods = (m, ms, mi, mse, mp, msp)
+        self.saved = []
+        env = self
+
+        class Engine(object):
+            IntegrityError, OperationalError = symsql.IntegrityError, symsql.OperationalError
+            Binary = staticmethod(lambda x: x)
+
+            @staticmethod
+            def connect(path, **kw):
+                c = symsql.connect(path, **kw)
+                c.boundary = env.b.hit
+                env.conns.append(c)
+                return c
+        self.conns = []
+        self.tmp = None
+        self.path = "sym:axolotl.db"
+        if not H.sym(ctx):
+            # replay: the REAL sqlite3 library on a real file, same boundaries
+            self.tmp = tempfile.mkdtemp(prefix="c13_", dir=_TMP)
+            self.path = os.path.join(self.tmp, "axolotl.db")
+            self.fake = Engine = FakeSqlite(b)
+        self.K = H.blob(ctx, "IDK", 32)
+        self.P = H.blob(ctx, "IDP", 32)
+        self.reg = ctx.int("registration_id", 1, 2 ** 31 - 2)
+
+        class KH(object):
+            @staticmethod
+            def generateIdentityKeyPair():
+                class Pair(object):
+                    def getPublicKey(s):
+                        return Rec(serialized=b"\x05" + env.K)
+
+                    def getPrivateKey(s):
+                        return Rec(serialized=env.P)
+                return Pair()
+
+            @staticmethod
+            def generateRegistrationId(x):
+                return env.reg
+        for mod, names in ((m, {"sqlite3": Engine}), (ms, {"sqlite3": Engine, "SenderKeyRecord": Rec}), (mse, {"SessionRecord": Rec}), (mp, {"PreKeyRecord": Rec}), (msp, {"SignedPreKeyRecord": Rec}),
+                           (mi, {"KeyHelper": KH, "IdentityKeyPair": Wrap, "IdentityKey": Wrap, "DjbECPublicKey": Wrap, "DjbECPrivateKey": Wrap})):
+            for n, v in names.items():
+                self.saved.append((mod, n, getattr(mod, n)))
+                setattr(mod, n, v)
+        self.m = m
+        symsql.reset()
+
+    def open(self):
+        return self.m.LiteAxolotlStore(self.path)
+
+    def die(self):
+        if self.tmp:
+            abandon(self.fake)
+            self.fake.conns = []
+            return
+        for c in self.conns:
+            c.crash()
+        self.conns = []
+
+    def durable(self, table):
+        if self.tmp:
+            c = sqlite3.connect(self.path)
+            c.row_factory = sqlite3.Row
+            try:
+                return [{k: (bytes(r[k]) if isinstance(r[k], (bytes, memoryview)) else r[k]) for k in r.keys()} for r in c.execute("SELECT * FROM %s" % table).fetchall()]
+            finally:
+                c.close()
+        return self.symsql.committed_rows(self.path, table)
+
+    def restore(self):
+        for mod, n, v in self.saved:
+            setattr(mod, n, v)
+        if self.tmp:
+            self.die()
+            shutil.rmtree(self.tmp, ignore_errors=True)
+
+
+SYM_OPS = {"sessions": ("store", "delete", "deleteAll"), "identities": ("save",), "prekeys": ("store", "remove", "setAsSent"), "signed_prekeys": ("store", "remove"), "sender_keys": ("store",)}
+
+
+def h_sym(ctx, table, n_ops):
+    """operation sequences with SYMBOLIC ids and records on the real store classes over the symbolic SQL engine; crash at a solver-chosen
+    statement/commit boundary of the last operation; reopen; durable contents against a ghost mapping; read-back through the load API"""
+    b = Boundary()
+    env = SymEnv(ctx, b)
+    try:
+        store = env.open()
+        ghost = Assoc()
+        k = ctx.choice("n_ops", list(range(1, n_ops + 1)))
+        seq = []
+        last = None
+        for i in range(k):
+            op = ctx.choice("op%d" % i, list(SYM_OPS[table]))
+            blob = H.blob(ctx, "REC%d" % i, ctx.int("len%d" % i, 1, 64))
+            if table == "sender_keys":
+                key = (H.zstr(ctx, "group%d" % i, maxlen=6), ctx.int("sender%d" % i, 1, 2 ** 40))
+            else:
+                key = ctx.int("id%d" % i, 0, 2 ** 40)
+            if table in ("prekeys", "signed_prekeys") and op == "store" and ghost.get(key, ABSENT) is not ABSENT:
+                return []                    # inserting an existing prekey id violates the API's precondition
+            if table == "sessions":
+                run = {"store": lambda: store.storeSession(key, 1, Rec(serialized=blob)), "delete": lambda: store.deleteSession(key, 1), "deleteAll": lambda: store.deleteAllSessions(key)}[op]
+                upd = (lambda g: g.set(key, blob)) if op == "store" else (lambda g: g.pop(key))
+            elif table == "identities":
+                run = lambda: store.saveIdentity(key, Rec(serialized=blob))
+                upd = lambda g: g.set(key, blob)
+            elif table == "prekeys":
+                run = {"store": lambda: store.storePreKey(key, Rec(serialized=blob)), "remove": lambda: store.removePreKey(key), "setAsSent": lambda: store.preKeyStore.setAsSent([key])}[op]
+                if op == "store":
+                    upd = lambda g: g.set(key, (blob, None))
+                elif op == "remove":
+                    upd = lambda g: g.pop(key)
+                else:
+                    upd = lambda g: g.set(key, (g.get(key)[0], 1)) if g.get(key, ABSENT) is not ABSENT else None
+            elif table == "signed_prekeys":
+                run = {"store": lambda: store.storeSignedPreKey(key, Rec(serialized=blob)), "remove": lambda: store.removeSignedPreKey(key)}[op]
+                upd = (lambda g: g.set(key, blob)) if op == "store" else (lambda g: g.pop(key))
+            else:
+                run = lambda: store.storeSenderKey(SKName(key[0], key[1]), Rec(serialized=blob))
+                upd = lambda g: g.set(key, blob)
+            seq.append(op)
+            if i < k - 1:
+                run()
+                upd(ghost)
+            else:
+                last = (op, run, upd, key)
+        ctx.note("sequence %s" % seq)
+        op, run, upd, key = last
+        pre, post = ghost.copy(), ghost.copy()
+        upd(post)
+        crash_at = ctx.choice("crash_at", ["none", 0, 1, 2, 3])
+        b.armed, b.crash_at, b.count = True, (None if crash_at == "none" else crash_at), 0
+        crashed = False
+        try:
+            run()
+        except Crash:
+            crashed = True
+        b.armed = False
+        env.die()
+        store2 = env.open()                                     # restart
+        rows = env.durable(table)
+
+        def durable_value(kk):
+            for r in rows:
+                if table == "sender_keys":
+                    if _keq((r["group_id"], r["sender_id"]), kk):
+                        return r["record"]
+                elif table in ("sessions", "identities"):
+                    if r["recipient_id"] is not None and _keq(r["recipient_id"], kk):
+                        return r["record"] if table == "sessions" else r["public_key"]
+                elif _keq(r["prekey_id"], kk):
+                    return (r["record"], r["sent_to_server"]) if table == "prekeys" else r["record"]
+            return ABSENT
+        obs = []
+        keys = []
+        for kk in pre.keys() + post.keys():
+            if not any(_keq(kk, x) for x in keys):
+                keys.append(kk)
+        for kk in keys:
+            got = durable_value(kk)
+            if not crashed:
+                obs.append(("no crash: %s record after reopen is what was stored last" % table, _veq(got, post.get(kk, ABSENT))))
+            else:
+                obs.append(("crash during %s before boundary %s: the %s record is its previous or its new value, never missing or mixed" % (op, crash_at, table),
+                            _any(_veq(got, pre.get(kk, ABSENT)), _veq(got, post.get(kk, ABSENT)))))
+        nrows = len([r for r in rows if not (table == "identities" and r["recipient_id"] == -1)])
+        if not crashed:
+            obs.append(("no crash: no other %s record appears or disappears (%d rows)" % (table, nrows), nrows == len(post.keys())))
+            # read back through the load API of a restarted process
+            for kk in post.keys():
+                want = post.get(kk)
+                if table == "sessions":
+                    obs.append(("restart: containsSession and loadSession return the stored record", core.conj(store2.containsSession(kk, 1) is True, _veq(store2.loadSession(kk, 1).serialized, want))))
+                elif table == "identities":
+                    obs.append(("restart: the pinned identity is trusted, a different one is not",
+                                core.conj(core.eq(store2.isTrustedIdentity(kk, Rec(serialized=want)), True), core.eq(store2.isTrustedIdentity(kk, Rec(serialized=want + b"x")), False))))
+                elif table == "prekeys":
+                    obs.append(("restart: loadPreKey returns the stored record", core.conj(store2.containsPreKey(kk) is True, _veq(store2.loadPreKey(kk).serialized, want[0]))))
+                elif table == "signed_prekeys":
+                    obs.append(("restart: loadSignedPreKey returns the stored record", _veq(store2.loadSignedPreKey(kk).serialized, want)))
+                else:
+                    obs.append(("restart: loadSenderKey returns the stored record", _veq(store2.loadSenderKey(SKName(kk[0], kk[1])).serialized, want)))
+        # own identity survives everything
+        pair = store2.getIdentityKeyPair()
+        ok_pair = pair is not None and isinstance(pair, Wrap)
+        obs.append(("own identity key pair is read back unchanged after reopen", core.conj(ok_pair and _veq(pair.a[0].a[0].a[0], env.K), ok_pair and _veq(pair.a[1].a[0], env.P)) if ok_pair else False))
+        obs.append(("own registration id is read back unchanged", core.eq(store2.getLocalRegistrationId(), env.reg)))
+        return obs
+    finally:
+        env.restore()
+
+
 def finding_key(case, label, values, where):
     if label.startswith("crash during store before boundary") and "sessions" in case:
         return "C13|storeSession replace: crash between delete-commit and insert-commit loses the session"
@@ -313,4 +615,7 @@ def cases(tier):
     n = 2 if tier == "quick" else 4
     cs = [dict(name="crash[%s,ops<=%d]" % (t, n), fn=h_crash, args=(t, n), max_paths=100000, timeout_s=600 if tier == "quick" else 3400, weight=10, keep_samples=10) for t in TABLES]
     cs.append(dict(name="durable[real-records]", fn=h_durable_real))
+    ns = 2 if tier == "quick" else 3
+    for t in TABLES:
+        cs.append(dict(name="symbolic[%s,ops<=%d]" % (t, ns), fn=h_sym, args=(t, ns), max_paths=200000, timeout_s=600 if tier == "quick" else 3400, weight=30, keep_samples=8))
     return cs
